@@ -76,29 +76,26 @@ class WriterExtractor:
             if tag is None:
                 raise AnalysisError(f"default tag of ASN1Writer.{name} not found")
             self.default_tags[name] = tag
+        from .anchors import asn1 as asn1_anchors
+        an = asn1_anchors(self.m)
         for name, kind in WRITE_KINDS.items():
-            fi = self.m.find_method(w.qualname, name)
-            if fi is None:
-                raise AnalysisError(f"ASN1Writer.{name} not found")
-            # write_X delegates to _pack_asn1_X(value, tag=tag)
-            callee = None
-            for n in ast.walk(fi.node):
-                if isinstance(n, ast.Call) and isinstance(n.func, ast.Name) and n.func.id.startswith("_pack_asn1"):
-                    callee = self.m.functions.get(f"{ASN1}.{n.func.id}")
+            callee = an.writer_helper.get(name)
             tag = self._default_in(callee) if callee else None
             hops = 0
             while tag is None and callee is not None and hops < 3:
-                # _pack_asn1_enumerated -> _pack_asn1_integer(value, tag=tag or DEFAULT)
+                # write_enumerated's helper delegates to the integer helper with  tag=tag or DEFAULT
                 nxt = None
                 for n in ast.walk(callee.node):
-                    if isinstance(n, ast.Call) and isinstance(n.func, ast.Name) and n.func.id.startswith("_pack_asn1"):
-                        for k in n.keywords:
-                            if k.arg == "tag" and isinstance(k.value, ast.BoolOp):
-                                try:
-                                    tag = self.folder.fold(k.value.values[-1], ASN1)
-                                except Unfoldable:
-                                    tag = None
-                        nxt = self.m.functions.get(f"{ASN1}.{n.func.id}")
+                    if isinstance(n, ast.Call) and isinstance(n.func, ast.Name):
+                        q = self.m.resolve_name(ASN1, n.func.id)
+                        if q in self.m.functions and self.m.functions[q] is not an.packer:
+                            for k in n.keywords:
+                                if k.arg == "tag" and isinstance(k.value, ast.BoolOp):
+                                    try:
+                                        tag = self.folder.fold(k.value.values[-1], ASN1)
+                                    except Unfoldable:
+                                        tag = None
+                            nxt = self.m.functions[q]
                 callee = nxt if tag is None else None
                 hops += 1
             if not isinstance(tag, TagConst):
@@ -518,6 +515,8 @@ class ReaderResult:
                 outer = self.field_of_var.get(var) or self.field_of_var.get(self.appended.get(var, ""))
                 if inner is None:
                     return None
+                if inner == "<self>":
+                    return outer
                 if outer is None or inner.startswith("#"):
                     return inner if outer is None else outer
                 return f"{outer}.{inner}"
@@ -538,10 +537,10 @@ class ReaderExtractor:
             fi = self.m.find_method(f"{ASN1}.ASN1Reader", name)
             if fi is None:
                 raise AnalysisError(f"ASN1Reader.{name} not found")
-            helper = None
-            for n in ast.walk(fi.node):
-                if isinstance(n, ast.Call) and isinstance(n.func, ast.Name) and n.func.id.startswith("_read_asn1"):
-                    helper = self.m.functions.get(f"{ASN1}.{n.func.id}")
+            from .anchors import asn1 as asn1_anchors
+            helper = asn1_anchors(self.m).reader_helper.get(name)
+            if helper is None and name in ("read_set_of", "read_sequence_of"):
+                helper = asn1_anchors(self.m).reader_helper.get(name[:-3])
             tag = None
             if helper is not None:
                 for n in ast.walk(helper.node):
@@ -784,6 +783,9 @@ class ReaderExtractor:
                     if sub is not None:
                         res.cls = sub.cls
                         res.field_of_var["<return>"] = ""
+            elif isinstance(v, ast.Name):
+                res.cls = res.cls or "<value>"
+                res.field_of_var[v.id] = "<self>"
             elif isinstance(v, ast.Tuple):
                 res.cls = "<tuple>"
                 for i, e in enumerate(v.elts):
